@@ -668,6 +668,9 @@ func TestC10(t *testing.T) {
 			c10serial(rep, seed, i)
 			c10clients(rep, seed, i)
 		}
+		if i%10 == 3 {
+			c10pause(rep, seed, i)
+		}
 		if rep.NViolations() > 4 {
 			break
 		}
@@ -1019,4 +1022,84 @@ func c10clients(rep *vh.Report, seed uint64, idx int) {
 	rep.Eval(1)
 	rep.Count("client_kind_scenarios", 1)
 	rep.Distinct("clients", idx, hookSignature())
+}
+
+// c10pause: a TCP / UDP peer that pauses for less than the idle timeout, also in the middle of a frame: every valid frame
+// still produces its frame event, nothing surfaces as a parse error, the channel stays open.
+func c10pause(rep *vh.Report, seed uint64, idx int) {
+	if aborted() {
+		return
+	}
+	r := vh.Sub(seed, fmt.Sprintf("c10-pause-%d", idx))
+	hookReset(r.U64(), false, false)
+	T := 400 * time.Millisecond
+	port := freeTCPPort()
+	node := &gomavlib.Node{Endpoints: []gomavlib.EndpointConf{gomavlib.EndpointTCPServer{Address: fmt.Sprintf("127.0.0.1:%d", port)}},
+		Dialect: testDialect, OutVersion: gomavlib.V2, OutSystemID: 80, HeartbeatDisable: true, IdleTimeout: T}
+	if err := node.Initialize(); err != nil {
+		rep.Inconclusive("C10 pause: " + err.Error())
+		return
+	}
+	c := newConsumer(rep, "C10", "pause", node)
+	c.start()
+	conn, err := net.Dial("tcp4", fmt.Sprintf("127.0.0.1:%d", port))
+	if err != nil {
+		safeClose(rep, node)
+		return
+	}
+	defer conn.Close()
+	var want []uint64
+	var maxGap time.Duration
+	last := time.Now()
+	send := func(b []byte) {
+		now := time.Now()
+		if g := now.Sub(last); g > maxGap {
+			maxGap = g
+		}
+		last = now
+		_, _ = conn.Write(b)
+	}
+	nf := 4 + r.Intn(4)
+	for i := 0; i < nf; i++ {
+		uid := uint64(0x77)<<48 | uint64(i+1)
+		w := uidFrame(uid, byte(i), 4, false, nil, 0)
+		want = append(want, uid)
+		cut := 1 + r.Intn(len(w)-1)
+		send(w[:cut])
+		time.Sleep(time.Duration(int64(T) * int64(45+r.Intn(30)) / 100)) // 0.45 .. 0.75 of the idle timeout, mid-frame
+		send(w[cut:])
+		time.Sleep(time.Duration(int64(T) * int64(30+r.Intn(45)) / 100))
+	}
+	send(uidFrame(uint64(0x77)<<48|0xFFF, 0, 4, false, nil, 0))
+	want = append(want, uint64(0x77)<<48|0xFFF)
+	waitFor(func() bool {
+		for _, ci := range c.allChannels() {
+			if len(c.snapshot(ci).UIDs) >= len(want) {
+				return true
+			}
+		}
+		return false
+	}, c.nEvents, T/2)
+	var snap chanInfo
+	for _, ci := range c.allChannels() {
+		snap = c.snapshot(ci)
+	}
+	if !safeClose(rep, node) {
+		return
+	}
+	<-c.done
+	rep.Eval(1)
+	rep.Count("pause_scenarios", 1)
+	wit := map[string]interface{}{"idle_timeout_ms": T.Milliseconds(), "largest_gap_between_sends_ms": maxGap.Milliseconds(), "frames_sent": len(want), "frame_events": len(snap.UIDs), "parse_errors": snap.Parse, "closed": snap.State == 2, "close_error": fmt.Sprint(snap.CloseErr)}
+	if maxGap >= T*85/100 {
+		rep.Inconclusive(fmt.Sprintf("C10 pause: the harness's own gap between sends reached %v (idle timeout %v): verdict not taken", maxGap, T))
+		return
+	}
+	switch {
+	case !eqU64(snap.UIDs, want):
+		rep.Violation("what="+classifySeq(snap.UIDs, want)+" ep=tcp", fmt.Sprintf("a peer that pauses (< idle timeout) in the middle of frames: %d frame events for %d valid frames, %d parse errors", len(snap.UIDs), len(want), snap.Parse), wit)
+	case snap.Parse > 0:
+		rep.Violation("what=parse-error-for-valid ep=tcp", "valid frames sent with pauses shorter than the idle timeout produced parse-error events", wit)
+	}
+	rep.Distinct("pause", idx)
 }
